@@ -188,8 +188,8 @@ def main() -> None:
             "Exit 0 pass, 1 VIOLATION, 2 ANALYSIS-ERROR (fail closed). Genuine defects of the "
             "pinned tree are repaired by fix: commits in /repo (54) or listed in known_findings.json "
             "(6 open: C01 1, C03 2, C06 1, C15 2 - the check prints KNOWN-FINDING for them and exits 0). "
-            "tools/regress.py runs the three corpora kept here: the clean tree, 140 seeded breaking changes "
-            "(seeded/), 220 behaviour-preserving refactorings (refactorings/)."
+            "tools/regress.py runs the three corpora kept here: the clean tree, 200 seeded breaking changes "
+            "(seeded/), 280 behaviour-preserving refactorings (refactorings/)."
         ),
     }
     (HERE / "MANIFEST.json").write_text(json.dumps(manifest, indent=1) + "\n")
